@@ -279,6 +279,26 @@ def _tiny_system():
     return sysm
 
 
+def _static_contact_system():
+    """point mass held by three compliance-form springs, pressed onto a frictionless plane by a ramped load (nla_c = 3, nla_N = 1)"""
+    from cardillo import System
+    from cardillo.discrete import PointMass, Frame
+    from cardillo.forces import Force
+    from cardillo.contacts import Sphere2Plane
+    from cardillo.interactions import TwoPointInteraction
+    from cardillo.force_laws import Spring
+    pm = PointMass(1.0, q0=np.array([0.0, 0.0, 0.25]), name="pm")
+    sysm = System()
+    els = []
+    for k, r in enumerate(([1.0, 0.0, 0.25], [-0.5, 1.0, 0.25], [-0.5, -1.0, 0.5])):
+        fr = Frame(r_OP=np.array(r), name=f"anchor{k}")
+        els += [fr, Spring(TwoPointInteraction(fr, pm, name=f"tp{k}"), 10.0, compliance_form=True, name=f"spring{k}")]
+    sysm.add(pm, Frame(name="plane"), *els, Force(lambda t: t * np.array([0.1, 0.0, -1.0]), pm, name="load"))
+    sysm.add(Sphere2Plane(sysm.contributions_map["plane"], pm, mu=0.0, r=0.25, name="contact"))
+    sysm.assemble()
+    return sysm
+
+
 def real_grid(solver, t1, dt):
     import io
     import contextlib
@@ -308,13 +328,22 @@ def rows(h, solver="Moreau"):
             from checks.c21 import smooth_system
             sysm = smooth_system()
             sol = S.Newton(sysm, n_load_steps=3, verbose=False).solve()
+        elif solver == "Newton/contact":
+            # unilateral contact + compliance spring + bilateral constraint: every multiplier field has its own width
+            sysm = _static_contact_system()
+            sol = S.Newton(sysm, n_load_steps=2, verbose=False, options=S.SolverOptions(newton_max_iter=50)).solve()
+        elif solver == "ScipyDAE/constraint":
+            from checks.c17 import build
+            from symx.harness import FloatH
+            sysm, _, _ = build(FloatH({}), "distance", 0)
+            sol = S.ScipyDAE(sysm, 0.05, 0.01).solve()
         else:
             sol = getattr(S, solver)(sysm, 0.05, 0.01).solve()
     nt = len(sol.t)
     h.holds("time grid starts at the initial time", float(sol.t[0]) == float(sysm.t0))
     h.holds("time grid strictly increasing", bool(np.all(np.diff(np.asarray(sol.t, dtype=float)) > 0)))
     widths = dict(q=sysm.nq, u=sysm.nu, u_dot=sysm.nu, q_dot=sysm.nq, la_g=sysm.nla_g, la_gamma=sysm.nla_gamma, la_c=sysm.nla_c, la_N=sysm.nla_N,
-                  la_F=sysm.nla_F, P_g=sysm.nla_g, P_gamma=sysm.nla_gamma, P_N=sysm.nla_N, P_F=sysm.nla_F)
+                  la_F=sysm.nla_F, mu_g=sysm.nla_g, P_g=sysm.nla_g, P_gamma=sysm.nla_gamma, P_N=sysm.nla_N, P_F=sysm.nla_F)
     for k, w in widths.items():
         v = getattr(sol, k, None)
         if v is None:
@@ -383,7 +412,7 @@ def cases(tier, seed):
         for system in (("smooth",) if solver == "Newton" else ("contact", "smooth")):
             cs.append(Case(f"rows_faulty/{solver}/{system}", rows_faulty, dict(solver=solver, system=system, cont=False), timeout=30,
                            max_paths=(128 if tier == "quick" else 1024), max_depth=64, patch=False, sentinel=False, hard=1200))
-    for solver in ("Moreau", "Rattle", "BackwardEuler", "DualStormerVerlet", "ScipyIVP", "ScipyDAE", "Newton"):
+    for solver in ("Moreau", "Rattle", "BackwardEuler", "DualStormerVerlet", "ScipyIVP", "ScipyDAE", "Newton", "Newton/contact", "ScipyDAE/constraint"):
         cs.append(Case(f"rows/{solver}", rows, dict(solver=solver), timeout=30, patch=False, sentinel=False))
     for nt in (1, 2, 3):
         for wq, wu in ((2, 1), (1, 0), (0, 2)):
